@@ -13,6 +13,8 @@ Streams
   seq     histories of add / remove (real Controller.remove_pairing) / save / restart over 0..3 pairings, exhaustive
           for short histories plus walks N -> ... -> 0 -> 1; after every restart the loaded set equals the last
           saved one (also the empty set); crash injection on the transition to the empty set.
+  cachehist histories of update_map / delete_map / restart over two pairing ids through CharacteristicCacheFile and
+          through AbstractPairing.restore_accessories_state; after every restart each id holds what was written last.
   emap    entity maps (random well-formed + tests/fixtures) through Accessories.from_list /
           serialize / JSON / from_list, against the record model (Model/PersistRec.v).
 Oracle: after any crash point the loaded pairing data equals the old or the new data (or nothing
@@ -1224,6 +1226,170 @@ async def stream_seq(ctx, drv, cov, viols, root, r):
     cov.extra["save_sequence_stream"] = stats
 
 
+# ---------------------------------------------------------------- stream: cache histories (update / delete / restart)
+def stream_cachehist(ctx, drv, cov, viols, root, r):
+    """Histories of {update_map(id, config_num, accessories, broadcast_key in {None,k1,k2}, state_num in
+    {None,0,7,65535}), delete_map(id), restart} over 1..2 pairing ids, written through CharacteristicCacheFile either
+    directly or through AbstractPairing.restore_accessories_state.  Oracle: after every restart get_map(id) equals the
+    LAST entry written for the id field by field (None stays None, deleted stays absent), and a freshly loaded pairing
+    (_load_accessories_from_cache) sees the same config_num / state_num / broadcast_key.  The model
+    (map_run, theorem cache_map_last_write_wins) replays the direct histories and predicts the whole map."""
+    import itertools
+    import pathlib
+
+    from aiohomekit.characteristic_cache import CharacteristicCacheFile
+    from aiohomekit.model import Accessories
+    tier = ctx["tier"]
+    path = os.path.join(root, "charmap.json")
+    K = {None: None, "k1": bytes(range(32)), "k2": bytes(range(100, 132))}
+    STATES = [None, 0, 7, 65535]
+    ids = ["AA:BB:CC:DD:EE:01", "aa:bb:cc:dd:ee:02"]
+    accs = []
+    while len(accs) < 2:
+        m = gen_entity_map(r, True, small=True)
+        if wf_map(m) and impl_from_list(m)[0] == "ok":
+            accs.append(m)
+    acc_views = [listed_view(dump_accessories(Accessories.from_list(json.loads(json.dumps(a))))) for a in accs]
+    pds = []
+    for i, hkid in enumerate(ids):
+        pd = gen_pairing(r, "BLE")
+        pd["AccessoryPairingID"] = hkid
+        pds.append(pd)
+
+    full = [("u", i, k, st) for i in (0, 1) for k in K for st in STATES] + [("d", 0), ("d", 1), ("r",)]
+    small = [("u", 0, k, st) for k in (None, "k1") for st in (None, 7)] + [("d", 0), ("r",)]
+    hists = []
+    for n in (1, 2):
+        hists += [("exhaustive", list(h)) for h in itertools.product(full, repeat=n)]
+    top = 3 if tier == "quick" else 4
+    hists += [("exhaustive-small", list(h)) for h in itertools.product(small, repeat=top)]
+    if tier != "quick":
+        hists += [("exhaustive", list(h)) for h in itertools.product(full, repeat=3)][:: 2]
+    # a value, then another value or None for the same id, restart in between or not
+    for k1, s1, k2, s2 in itertools.product(K, STATES, K, STATES):
+        hists.append(("overwrite", [("u", 0, k1, s1), ("u", 0, k2, s2)]))
+        if tier != "quick" or (k2 is None or s2 is None):
+            hists.append(("overwrite", [("u", 1, k1, s1), ("r",), ("u", 1, k2, s2)]))
+    for _ in range(100 if tier == "quick" else 3000):
+        hists.append(("random", [r.choice(full) for _ in range(r.randrange(3, 11))]))
+    stats = dict(histories=0, updates=0, updates_with_none_over_value=0, deletes=0, restarts=0, via={"direct": 0, "pairing": 0},
+                 exhaustive_full_alphabet_up_to=2 if tier == "quick" else 3, exhaustive_small_alphabet_length=top,
+                 model_replays=0)
+    seen = set()
+    model_reqs = []
+
+    def check_restart(expected, trace, via):
+        """Fresh CharacteristicCacheFile + fresh controller/pairings; returns (cache, controller, pairings, problem)."""
+        c = CharacteristicCacheFile(pathlib.Path(path))
+        problem = None
+        for i, hkid in enumerate(ids):
+            got, want = c.get_map(hkid), expected.get(hkid)
+            if (got is None) != (want is None):
+                problem = ("presence", f"id {hkid}: entry {'absent' if got is None else 'present'} after the restart, "
+                           f"last operation {'deleted it / never wrote it' if want is None else 'wrote it'}")
+                break
+            if want is None:
+                continue
+            for fld in ("config_num", "broadcast_key", "state_num"):
+                if got.get(fld) != want[fld] or (fld in got and type(got[fld]) is not type(want[fld])):
+                    problem = (fld, f"id {hkid}: {fld} written last = {want[fld]!r}, after the restart get_map has {got.get(fld)!r}")
+                    break
+            if problem:
+                break
+            v = listed_view(dump_accessories(Accessories.from_list(json.loads(json.dumps(got["accessories"])))))
+            if v != acc_views[want["acc"]]:
+                problem = ("accessories", f"id {hkid}: accessory database differs from the one written last")
+                break
+        ctl = make_controller(c)
+        ps = []
+        for i, hkid in enumerate(ids):
+            pr_ = ctl.load_pairing(f"p{i}", dict(pds[i]))
+            ps.append(pr_)
+            if problem:
+                continue
+            st, want = pr_.accessories_state, expected.get(hkid)
+            if (st is None) != (want is None):
+                problem = ("pairing-restore-presence", f"id {hkid}: freshly loaded pairing has "
+                           f"{'no' if st is None else 'a'} restored state")
+            elif want is not None:
+                seen_ = dict(config_num=st.config_num, state_num=st.state_num,
+                             broadcast_key=st.broadcast_key.hex() if st.broadcast_key is not None else None)
+                for fld, val in seen_.items():
+                    if val != want[fld]:
+                        problem = ("pairing-restore-" + fld, f"id {hkid}: freshly loaded pairing sees {fld} = {val!r}, "
+                                   f"written last = {want[fld]!r}")
+                        break
+        return c, ctl, ps, problem
+
+    for kind, h, via in [(k_, h_, v_) for k_, h_ in hists for v_ in ("direct", "pairing")]:
+        reset_dir(root, {})
+        c = CharacteristicCacheFile(pathlib.Path(path))
+        ctl = make_controller(c)
+        ps = [ctl.load_pairing(f"p{i}", dict(pds[i])) for i in range(2)]
+        expected, trace, mops = {}, [], []
+        problem = None
+        cfg = 0
+        try:
+            for op in h + [("r",)]:
+                if op[0] == "u":
+                    _, i, kname, st = op
+                    cfg += 1
+                    ai = (cfg + i) % 2
+                    key = K[kname]
+                    prev = expected.get(ids[i])
+                    if prev and ((key is None and prev["broadcast_key"] is not None) or (st is None and prev["state_num"] is not None)):
+                        stats["updates_with_none_over_value"] += 1
+                    if via == "direct":
+                        c.async_create_or_update_map(ids[i], cfg, json.loads(json.dumps(accs[ai])), key.hex() if key else None, st)
+                    else:
+                        ps[i].restore_accessories_state(json.loads(json.dumps(accs[ai])), cfg, key, st)
+                    expected[ids[i]] = dict(config_num=cfg, broadcast_key=key.hex() if key else None, state_num=st, acc=ai)
+                    mops.append(["u", ids[i], dict(config_num=cfg, accessories=accs[ai], broadcast_key=key.hex() if key else None,
+                                                   state_num=st)])
+                    trace.append(["update", ids[i], dict(config_num=cfg, broadcast_key=kname, state_num=st)])
+                    stats["updates"] += 1
+                elif op[0] == "d":
+                    (c if via == "direct" else ctl._char_cache).async_delete_map(ids[op[1]])
+                    expected.pop(ids[op[1]], None)
+                    mops.append(["d", ids[op[1]]])
+                    trace.append(["delete", ids[op[1]]])
+                    stats["deletes"] += 1
+                else:
+                    trace.append(["restart"])
+                    stats["restarts"] += 1
+                    c, ctl, ps, problem = check_restart(expected, trace, via)
+                    if problem:
+                        break
+                    if via == "direct" and len(model_reqs) < (300 if tier == "quick" else 3000) and mops:
+                        model_reqs.append(("cmap " + to_tokens({}) + " " + to_tokens(mops),
+                                           json.load(open(path, encoding="utf-8"))["pairings"] if os.path.exists(path) else {},
+                                           list(trace)))
+        except Exception as e:  # noqa
+            problem = ("exception", f"{type(e).__name__} during the history")
+        stats["histories"] += 1
+        stats["via"][via] += 1
+        cov.case("cachehist|" + via + canon(trace), any(t[0] == "update" for t in trace),
+                 sample=dict(stream="cache-history", kind=kind, via=via, history=trace[:8], ok=problem is None)
+                 if stats["histories"] % 211 == 0 else None,
+                 cachehist_kind=kind, cachehist_via=via, cachehist_len=min(len(trace), 10),
+                 cachehist_result=problem[0] if problem else "ok")
+        if problem:
+            key = "cache_history:restart-differs:" + problem[0]
+            if key not in seen:
+                seen.add(key)
+                viols.append(violation(key, f"cache history (via {via}): " + problem[1], True, via=via, history=trace,
+                                       last_written={k: {f: v for f, v in e.items() if f != "acc"} for k, e in expected.items()}))
+    for (req, real_map, trace), ans in zip(model_reqs, drv.batch([q[0] for q in model_reqs])):
+        m = parse_answer(ans)[0]
+        stats["model_replays"] += 1
+        if m[0] != "ok" or list(m[1].items()) != list(real_map.items()):
+            viols.append(violation("cache_history:model-mismatch:map", "cache file content after the history differs from the "
+                                   "model's map (map_run)", False, history=trace, real_ids=list(real_map),
+                                   model_ids=list(m[1]) if m[0] == "ok" else m[0],
+                                   broken="correspondence Model/PersistRec.v map_run <-> CharacteristicCacheMemory"))
+    cov.extra["cache_history_stream"] = stats
+
+
 # ---------------------------------------------------------------- stream: cache file crash points, prefixes, corruptions
 def cache_doc(r, n_pairings=1, small=True):
     out = {}
@@ -1398,6 +1564,7 @@ async def run_async(ctx):
         timings["sequence"] = round(time.time() - t0, 1)
         for name, fn in (("save", lambda: stream_save(ctx, drv, cov, viols, root, rng(seed, "c20save"))),
                          ("cache", lambda: stream_cache(ctx, drv, cov, viols, root, rng(seed, "c20cache"))),
+                         ("cache_history", lambda: stream_cachehist(ctx, drv, cov, viols, root, rng(seed, "c20cachehist"))),
                          ("pairs", lambda: stream_pairs(ctx, drv, cov, viols, root, rng(seed, "c20pairs"))),
                          ("entry", lambda: stream_entry(ctx, drv, cov, viols, root, rng(seed, "c20entry"))),
                          ("emap", lambda: stream_emap(ctx, drv, cov, viols, rng(seed, "c20emap")))):
